@@ -1,6 +1,7 @@
 """C17 - an expanded table file reproduces the build-time versions exactly.
 
-Model: coq/Model/Expand.v (table.expandTableFile on classified lines) + coq/Model/Setup.v (exact-mode replay)
+Model: coq/Model/ExpandText.v (level A: the TEXT of a table to classified lines and the expanded lines back to text) over
+       coq/Model/Expand.v (table.expandTableFile on classified lines) + coq/Model/Setup.v (exact-mode replay)
 Theorems: coq/Props/C17.v
 
 One case = one world of harness/setupsim.py (one stack, products p1..pn with random tables) plus
@@ -16,9 +17,19 @@ One case = one world of harness/setupsim.py (one stack, products p1..pn with ran
                                   products it started and rolled back);
                 eups expandtable  a fresh instance (Eups + selectVRO, input stream, output stream, productList, force,
                                   toplevelName), as the command line does;
-              each compared, after whitespace normalisation, with the text rendered by the model from the
-              classified lines, the build environment, the world as the real parser sees it and the raw
-              dependency lists the real getDependencies returns (to that instance) for the table's own lines;
+              each compared (a) CHARACTER FOR CHARACTER with the text the model writes from the TEXT of the table
+              (level A in the model: Model/ExpandText.v expand_text_gen - scanner, subSetup argument loop,
+              indentation, padding of the pins), and (b) after whitespace normalisation with the text rendered from
+              the lines classified in python (level B, kept), both from the build environment, the world as the real
+              parser sees it and the raw dependency lists the real getDependencies returns (to that instance);
+              a table the model declares outside its grammar is counted (text/outside:<reason>), never skipped
+              silently;
+  * TEXTS   : further table texts expanded in the same build environment by a fresh instance and by the model
+              (expansion only): the top table with its setup lines respelled (command names in other cases, blanks
+              and tabs inside the parentheses, quotes, flags -j -k -f flavor -t tag, unknown flags, a flag without its
+              argument, brackets split or glued, bare relational expressions, lines naming eups, semicolons,
+              unsetupRequired, --external, comments that end in a brace, a file without final line feed, carriage
+              returns, a character outside ASCII ...), and the expanded table itself (a pre-existing exact block);
   * EVOLVE  : newer versions declared, `current` moved or removed;
   * REPLAY  : the expanded text written over the installed table (what `expandtable -i` does), then
               `setup --exact top v` in a fresh environment; compared with Model/Setup.v run on the evolved
@@ -57,7 +68,10 @@ class OutOfGrammar(Exception):
 # ------------------------------------------------------------------ level A in python: classify the lines of a table
 
 BLANK_RE = re.compile(r"^\s*(#.*)?$")
-SETUP_RE = re.compile(r'(setupRequired|setupOptional)\("?([^"]*)"?\)')
+# a setup command as the table reader (Table._read) accepts it - and as expandTableFile recognises it since
+# proposed_fixes/C17-setup-line-spelling: the name in any case, blanks in front of the parenthesis, arguments separated
+# by commas or white space
+SETUP_RE = re.compile(r'(?i)(setupRequired|setupOptional)\s*\("?([^"]*)"?\)')
 
 
 def classify(line):
@@ -74,7 +88,7 @@ def classify(line):
         return ["O", s.strip()]
     if s.strip() != m.group(0):
         raise OutOfGrammar("text around a setup command: %r" % line)
-    args = m.group(2).split()
+    args = [a for a in re.split(r"[,\s]+", m.group(2)) if a]
     flags, words = [], []
     i = 0
     while i < len(args):
@@ -110,7 +124,7 @@ def classify(line):
         del words[left:right + 1]
     if "[" in words or "]" in words:
         raise OutOfGrammar("stray bracket")
-    return ["S", m.group(1) == "setupOptional", name, flags, version, words, logical, m.group(0)]
+    return ["S", m.group(1).lower() == "setupoptional", name, flags, version, words, logical, m.group(0)]
 
 
 def enc_line(c):
@@ -166,6 +180,8 @@ def decorate(rng, lines, flavors=(FLAVOR, FLAVOR, "Darwin")):
                     out.append("")
                 out.append("}")
             else:
+                if rng.random() < 0.12:
+                    ln = respell_valid(rng, ln)[1]
                 out.append(("  " if rng.random() < 0.2 else "") + ln + ("  # note" if rng.random() < 0.15 else ""))
         else:
             out.append(ln)
@@ -174,6 +190,147 @@ def decorate(rng, lines, flavors=(FLAVOR, FLAVOR, "Darwin")):
     if rng.random() < 0.3:
         out.append(rng.choice(["", "# the end"]))
     return out
+
+
+# ---- spellings of setup lines
+
+SETUP_LINE_RE = re.compile(r"^(\s*)(setupRequired|setupOptional)\(([^()\",]*)\)(.*)$")
+
+
+def respell_valid(rng, ln):
+    """another spelling of a setup line that the table reader (Table._read) takes for the same command (tag and
+    flavor flags aside); (kind, line)"""
+    m = SETUP_LINE_RE.match(ln)
+    if not m:
+        return None, ln
+    ind, cmd, args, tail = m.groups()
+    words = args.split()
+    if not words:
+        return None, ln
+    k = rng.choice(["trail-blank", "two-blanks", "quoted", "flag-k", "flag-f", "flag-t", "lead-blank", "case", "bracket-blanks",
+                    "trail-blank", "two-blanks", "flag-k", "flag-f", "flag-t", "case", "blank-paren", "commas", "case-blank-commas"])
+    if k == "trail-blank":
+        return k, "%s%s(%s )%s" % (ind, cmd, args, tail)
+    if k == "two-blanks" and len(words) > 1:
+        return k, "%s%s(%s)%s" % (ind, cmd, "  ".join(words), tail)
+    if k == "quoted":
+        return k, '%s%s("%s")%s' % (ind, cmd, args, tail)
+    if k == "flag-k":
+        return k, "%s%s(%s -k)%s" % (ind, cmd, args, tail)
+    if k == "flag-f":
+        return k, "%s%s(%s -f %s%s)%s" % (ind, cmd, words[0], FLAVOR, "".join(" " + w for w in words[1:]), tail)
+    if k == "flag-t" and len(words) == 1:
+        return k, "%s%s(%s -t current)%s" % (ind, cmd, args, tail)
+    if k == "lead-blank":
+        return k, "%s%s( %s)%s" % (ind, cmd, args, tail)
+    if k == "case":
+        return k, "%s%s(%s)%s" % (ind, rng.choice([cmd.lower(), cmd.upper(), cmd[0].upper() + cmd[1:]]), args, tail)
+    if k == "blank-paren":
+        return k, "%s%s %s(%s)%s" % (ind, cmd, rng.choice(["", " ", "\t"]), args, tail)
+    if k == "commas" and len(words) > 1:
+        return k, "%s%s(%s)%s" % (ind, cmd, rng.choice([", ", ",", " , "]).join(words), tail)
+    if k == "case-blank-commas":
+        return k, "%s%s (%s)%s" % (ind, rng.choice([cmd.lower(), cmd.upper()]), ", ".join(words), tail)
+    if k == "bracket-blanks" and "[" in args and "]" in args:
+        return k, "%s%s(%s)%s" % (ind, cmd, args.replace("[", "[ ").replace("]", " ]"), tail)
+    return None, ln
+
+
+WILD = ["semicolon", "unsetup", "tab", "paren", "external", "unknown-flag", "flag-no-arg", "flag-arg-j", "stray-bracket",
+        "glued-bracket", "no-name", "only-flag", "no-close", "two-commands", "relational", "relational-glued", "eups",
+        "eups-expr", "eups-blank", "nosuch", "name-last", "dash-word", "quoted-version", "empty-bracket", "text-before"]
+
+
+def respell_wild(rng, ln):
+    """a spelling expandTableFile may or may not follow: (kind, line)"""
+    m = SETUP_LINE_RE.match(ln)
+    if not m:
+        return None, ln
+    ind, cmd, args, tail = m.groups()
+    words = args.split()
+    if not words:
+        return None, ln
+    n = words[0]
+    k = rng.choice(WILD)
+    new = {
+        "semicolon": "%s(%s);" % (cmd, args),
+        "unsetup": "un%s(%s)" % (cmd, args),
+        "tab": "%s(%s)" % (cmd, "\t".join(words)),
+        "paren": "%s(%s (x))" % (cmd, args),
+        "external": "%s(%s --external)" % (cmd, args),
+        "unknown-flag": "%s(%s -x --frob -B)" % (cmd, args),
+        "flag-no-arg": "%s(%s -f)" % (cmd, args),
+        "flag-arg-j": "%s(%s -f -j)" % (cmd, args),
+        "stray-bracket": "%s(%s ] 1.0)" % (cmd, n),
+        "glued-bracket": "%s(%s[>= 1.0])" % (cmd, n),
+        "no-name": "%s()" % cmd,
+        "only-flag": "%s(-j)" % cmd,
+        "no-close": "%s(%s" % (cmd, args),
+        "two-commands": "%s(%s) setupOptional(p1)" % (cmd, args),
+        "relational": "%s(%s >= 1.0 junk)" % (cmd, n),
+        "relational-glued": "%s(%s >1.0)" % (cmd, n),
+        "eups": "%s(eups)" % cmd,
+        "eups-expr": "%s(eups >= 1.0)   # need a recent eups" % cmd,
+        "eups-blank": "%s( eups 1.0)" % cmd,
+        "nosuch": "setupOptional(nosuch%s)" % rng.choice(["", " 1.0", " -j", " [>= 2]"]),
+        "name-last": "%s(-j %s)" % (cmd, n),
+        "dash-word": "%s(%s [-j 1.0])" % (cmd, n),
+        "quoted-version": '%s(%s "1.0")' % (cmd, n),
+        "empty-bracket": "%s(%s [])" % (cmd, n),
+        "text-before": "x = %s(%s)" % (cmd, args),
+    }[k]
+    return k, ind + new + (tail if k not in ("eups-expr", "no-close") else "")
+
+
+FILE_FORMS = ["no-final-newline", "crlf", "non-ascii", "comment-brace-first", "rbrace-first", "exact-comment",
+              "manual-exact-block", "not-exact-block", "only-comments", "empty", "else-chain", "vtab"]
+
+
+def vary_text(rng, lines):
+    """one further text made from the lines of the top table: [kinds], text"""
+    lines = [ln for ln in lines]
+    kinds = []
+    setups = [i for i, ln in enumerate(lines) if SETUP_LINE_RE.match(ln)]
+    rng.shuffle(setups)
+    for i in setups[:rng.choice([1, 1, 2, 3])]:
+        k, new = (respell_wild if rng.random() < 0.65 else respell_valid)(rng, lines[i])
+        if k:
+            kinds.append(k)
+            lines[i] = new
+    if rng.random() < 0.3:
+        k = rng.choice(["eups", "eups-expr"])
+        kinds.append(k + "-line")
+        lines.insert(rng.randrange(len(lines) + 1), {"eups": "setupRequired(eups)",
+                                                     "eups-expr": "setupOptional(eups [>= 1.0])"}[k])
+    text = "\n".join(lines) + "\n"
+    if rng.random() < 0.35:
+        f = rng.choice(FILE_FORMS)
+        kinds.append(f)
+        if f == "no-final-newline":
+            text = text[:-1]
+        elif f == "crlf":
+            text = text.replace("\n", "\r\n")
+        elif f == "non-ascii":
+            text = "# caf\xe9\n" + text
+        elif f == "comment-brace-first":
+            text = "# settings {\n" + text
+        elif f == "rbrace-first":
+            text = "}\n" + text
+        elif f == "exact-comment":
+            text = text + "# if (type == exact) {\n"
+        elif f == "manual-exact-block":
+            text = "if (type == exact) {\n   setupRequired(p1 -j 1.0)\n} else {\n   setupRequired(p1)\n}\n" + text
+        elif f == "not-exact-block":
+            text = text + "if (type != exact) {\n   setupOptional(p1)\n}\n"
+        elif f == "only-comments":
+            text = "# nothing here\n\n   # at all\n"
+        elif f == "empty":
+            text = ""
+        elif f == "else-chain":
+            text = text + "if (flavor == %s) {\n   envSet(C17_A, b)\n} else {\n   setupOptional(p1 [>= 1.0])\n\n}\n" % FLAVOR
+        elif f == "vtab":
+            text = text.replace("(FOO_", "(\x0bFOO_").replace("\n#", "\n \x0c#")
+    return {"kinds": sorted(set(kinds)) or ["plain"], "text": text}
 
 
 def failing_line(rng, name):
@@ -256,7 +413,10 @@ def gen_case(rng):
         elif r < 0.75:
             ops.append({"op": "uncurrent", "name": n})
     rng.shuffle(ops)
-    return {"world": world, "top": top, "topv": topv, "plist": plist, "force": force, "evolve": ops}
+    table = world["products"][top][topv]
+    texts = [vary_text(rng, table) for _ in range(rng.choice([1, 1, 2]))]
+    return {"world": world, "top": top, "topv": topv, "plist": plist, "force": force, "evolve": ops, "texts": texts,
+            "reexpand": rng.random() < 0.25}
 
 
 def gen_generic(rng, prods):
@@ -376,6 +536,34 @@ def gen_failed_optional_case(rng):
     return {"world": world, "top": "p7", "topv": v["p7"], "plist": {}, "force": False, "evolve": ops}
 
 
+def gen_spelling_case(rng):
+    """directed family: the setup lines of the top table in the spellings the table reader accepts - the command name
+    in another case, blanks in front of the parenthesis, commas between the arguments - over a small graph, followed by
+    newer current versions of everything:   p4 (top) -> p3, p2;   p3 -> p1;   p2 -> p1"""
+    P = "envPrepend(PATH, ${PRODUCT_DIR}/bin)"
+    v = {n: rng.choice(setupsim.VERSIONS) for n in ("p1", "p2", "p3", "p4")}
+
+    def spell(cmd, args):
+        cmd = rng.choice([cmd, cmd.lower(), cmd.upper(), cmd[0].upper() + cmd[1:]])
+        words = args.split()
+        sep = rng.choice([" ", " ", ", ", ","]) if len(words) > 1 else " "
+        return "%s%s(%s)" % (cmd, rng.choice(["", "", " ", "  "]), sep.join(words))
+    top = [P,
+           spell("setupRequired", "p3" + rng.choice(["", " " + v["p3"], " " + v["p3"] + " [>= 1.0]", " >= 1.0"])),
+           rng.choice(OTHER_LINES) % 1,
+           spell(rng.choice(["setupRequired", "setupOptional"]), "p2" + rng.choice(["", " " + v["p2"], " -j " + v["p2"]]))]
+    if rng.random() < 0.4:
+        top.append(spell("setupOptional", "nosuch" + rng.choice(["", " 1.0"])))
+    prods = {"p1": {v["p1"]: [P]}, "p2": {v["p2"]: [P, "setupRequired(p1)"]}, "p3": {v["p3"]: [P, "setupRequired(p1 %s)" % v["p1"]]},
+             "p4": {v["p4"]: decorate(rng, top, flavors=(FLAVOR,)) if rng.random() < 0.5 else top}}
+    world = {"root": "stack", "products": prods, "current": {n: v[n] for n in prods}, "generic": gen_generic(rng, prods)}
+    ops = [{"op": "declare", "name": n, "version": "4.0", "lines": [P], "current": True} for n in ("p1", "p2", "p3")
+           if rng.random() < 0.8]
+    rng.shuffle(ops)
+    return {"world": world, "top": "p4", "topv": v["p4"], "plist": {}, "force": False, "evolve": ops,
+            "texts": [vary_text(rng, prods["p4"][v["p4"]])], "reexpand": False}
+
+
 # ------------------------------------------------------------------ implementation (runs in a forked child)
 
 def _fresh_eups(eups, **kw):
@@ -452,15 +640,10 @@ def run_case(case):
         text_in = "\n".join(world["products"][top][topv]) + "\n"
 
         def raw_deps(e):
+            # for every product a line of a table text can resolve to a version: those that are set up, and those the
+            # productList names (a superset of what the expansion looks up; the model looks up by (name, version))
             raw = {}
-            for ln in world["products"][top][topv]:
-                try:
-                    c = classify(ln)
-                except OutOfGrammar:
-                    continue
-                if c[0] != "S":
-                    continue
-                n = c[2]
+            for n in sorted(set(setupsim.setup_records(benv)) | set(case["plist"])):
                 v = case["plist"].get(n) or e.findSetupVersion(n)[0]
                 if v and ("%s %s" % (n, v)) not in raw:
                     try:
@@ -470,11 +653,11 @@ def run_case(case):
                         raw["%s %s" % (n, v)] = "raise:" + type(ex).__name__
             return raw
 
-        def expand(e):
+        def expand(e, text=None):
             ofd = io.StringIO()
             try:
-                eups.expandTableFile(ofd, io.StringIO(text_in), dict(case["plist"]), None, e, bool(case["force"]),
-                                     toplevelName=top)
+                eups.expandTableFile(ofd, io.StringIO(text_in if text is None else text), dict(case["plist"]),
+                                     None, e, bool(case["force"]), toplevelName=top)
                 return {"text": ofd.getvalue()}
             except Exception as ex:  # noqa
                 return {"raise": type(ex).__name__, "msg": str(ex)[:300]}
@@ -501,6 +684,17 @@ def run_case(case):
         e = _fresh_eups(eups)
         e.selectVRO(None, None, None, None)
         out["expand"] = expand(e)
+        # ---- TEXTS: further table texts, expansion only (fresh instance, build environment)
+        texts = [dict(t) for t in case.get("texts", [])]
+        if case.get("reexpand") and "text" in out["expand"]:
+            texts.append({"kinds": ["re-expansion"], "text": out["expand"]["text"]})
+        for t in texts:
+            os.environ.clear()
+            os.environ.update(benv)
+            e = _fresh_eups(eups)
+            e.selectVRO(None, None, None, None)
+            t["result"] = expand(e, t["text"])
+        out["texts"] = texts
         if "raise" in out["expand"]:
             return out
 
@@ -608,12 +802,15 @@ def constraint(c):
     return version, logical
 
 
-def oracle_text(case, built, text):
+def oracle_text(case, built, text, in_lines=None, clauses=(1, 2, 3)):
     """the clauses that speak about the expanded text alone: (1) pins, (2) other lines, (3) non-exact branch"""
     top, topv = case["top"], case["topv"]
-    in_lines = case["world"]["products"][top][topv]
+    if in_lines is None:
+        in_lines = case["world"]["products"][top][topv]
     lines = norm_text(text)
     pins, inexact, exact, ok = split_views(lines)
+    if not clauses:
+        return
     if not ok:
         yield ("other-lines", None, lines, "the generated blocks of the expanded table do not close")
     # (1) the exact block pins only versions that were set up
@@ -630,6 +827,8 @@ def oracle_text(case, built, text):
         if built.get(n) != v and case["plist"].get(n) != v:
             yield ("pins-foreign", built.get(n), v,
                    "the exact block pins %s %s, which was not set up at expansion time (set up: %s)" % (n, v, built.get(n)))
+    if 2 not in clauses:
+        return
     # (2) lines other than setup commands pass unchanged, in order (comment text and blank lines aside)
     want = [strip_comment(ln) for ln in in_lines if not BLANK_RE.search(ln) and not is_setup_line(ln)]
     want = [w for w in want if w]
@@ -637,6 +836,8 @@ def oracle_text(case, built, text):
         got = [ln for ln in view if not ln.startswith("#") and not SETUP_RE.search(ln)]
         if got != want:
             yield ("other-lines", want, got, "the non-setup lines seen in %s mode differ from the input's" % name)
+    if 3 not in clauses:
+        return
     # (3) the non-exact branch keeps every setup line with its constraint
     want_s = [classify(ln) for ln in in_lines if is_setup_line(ln)]
     got_s = [ln for ln in inexact if SETUP_RE.search(ln) and not ln.startswith("#")]
@@ -732,6 +933,34 @@ def expand_line(case, res, rawkey="rawdeps"):
                       common.enc_env(case["plist"]), "1" if case["force"] else "0", "|".join(lines), "|".join(raw)])
 
 
+def xtext_line(case, res, text, rawkey="rawdeps"):
+    """level A in the model: the TEXT of the table goes to the extracted expand_text_gen"""
+    top = case["top"]
+    prods = []
+    for key, info in sorted(res["parsed0"].items()):
+        name, v = key.split(" ")
+        prods.append("%s:%s:%s:%s" % (enc(name), enc(v), enc(info["dir"]), "+".join(info["actions"])))
+    raw = []
+    for key, deps in sorted(res[rawkey].items()):
+        name, v = key.split(" ")
+        if isinstance(deps, str):
+            continue            # getDependencies raised for this product: the model has no list for it (as app.getDependencies)
+        raw.append("%s:%s:%s" % (enc(name), enc(v), "+".join("%s,%s,%d" % (enc(d[0]), "1" if d[1] else "0", d[2]) for d in deps)))
+    return "\t".join(["xtext", "|".join(prods), common.enc_env(res["build"]["env"]), enc(top),
+                      common.enc_env(case["plist"]), "1" if case["force"] else "0", enc(text), "|".join(raw)])
+
+
+def xtext_result(line):
+    f = line.split("\t")
+    if f[0] == "ok":
+        return {"text": common.dec(f[1]) if len(f) > 1 else ""}
+    if f[0] == "outside":
+        return {"outside": f[1]}
+    if f[0] == "err":
+        return {"raise": f[1]}
+    return {"driver": line}
+
+
 def expand_result(line):
     f = line.split("\t")
     if f[0] == "ok":
@@ -767,8 +996,13 @@ def forced_decisions(res, top, topv):
     return (None if leak else ds), leak
 
 
+def text_verdict(m):
+    return ("outside:" + m["outside"]) if "outside" in m else ("raise" if "raise" in m else "written")
+
+
 def evaluate(ctx, cases, results):
     exp_lines, exp_idx = [], []
+    xt_lines, xt_idx = [], []
     bld_lines, bld_idx = [], []
     rep_lines, rep_idx = [], []
     for i, (c, r) in enumerate(zip(cases, results)):
@@ -798,6 +1032,7 @@ def evaluate(ctx, cases, results):
                 ctx.bump("protocols-differ")
             if res.get("rawdeps_same") != res.get("rawdeps"):
                 ctx.bump("dependency-lists-differ-between-instances")
+            top_text = "\n".join(c["world"]["products"][c["top"]][c["topv"]]) + "\n"
             for key, rawkey, _proto in PROTOCOLS:
                 if res.get(key) is None:
                     continue
@@ -806,6 +1041,12 @@ def evaluate(ctx, cases, results):
                     exp_idx.append((i, key))
                 except OutOfGrammar:
                     ctx.bump("out-of-grammar")
+                # level A in the model: the text of the table
+                xt_lines.append(xtext_line(c, res, top_text, rawkey))
+                xt_idx.append((i, key, ["top-table"], top_text, res[key], None))
+            for t in res.get("texts") or []:
+                xt_lines.append(xtext_line(c, res, t["text"], "rawdeps"))
+                xt_idx.append((i, "text", t["kinds"], t["text"], t["result"], t))
             # the build itself through Model/Setup.v (decisions of the real resolver fed): the environment the expansion
             # reads is the final environment of the Setup model, failed optional dependencies rolled back
             rec = {"request": {"name": c["top"], "fwd": True}, "before": res["base"], "decisions": b["decisions"],
@@ -831,6 +1072,45 @@ def evaluate(ctx, cases, results):
                                             if b["ok"] and nsetup >= 2 else None))
         for kind, expected, observed, what in oracle(c, res):
             ctx.fail(kind, shrink_view(c, res), expected=expected, observed=observed, what=what)
+    xout = ctx.model(xt_lines) if xt_lines else []
+    for (i, key, kinds, text, x, extra), ln in zip(xt_idx, xout):
+        c, res = cases[i], results[i][1]
+        m = xtext_result(ln)
+        if key != "expand_same":
+            # shapes: one count per respelling / file form of the text, with the verdict of the model
+            if extra is not None:
+                ctx.bump("further-texts/" + text_verdict(m))
+                for k in kinds:
+                    ctx.bump("text:%s/%s" % (k, text_verdict(m)))
+            else:
+                ctx.bump("top-table-text/" + text_verdict(m))
+        if "driver" in m:
+            raise RuntimeError("model driver: %r" % (m,))
+        if "outside" not in m:
+            impl = {"raise": "raise"} if "raise" in x else {"text": x["text"]}
+            mm = {"raise": "raise"} if "raise" in m else m
+            if mm != impl:
+                view = shrink_view(c, res, key if extra is None else "expand")
+                view["text_in"] = text
+                ctx.disagree(view, mm, x, where="expanded text, character for character (level A in the model)" +
+                             (" [%s]" % ",".join(kinds)) + (" (python API protocol)" if key == "expand_same" else ""))
+        if extra is not None:
+            ctx.count(1, key=None)
+            if "text" in x:
+                # the clauses of the property that speak about the text, on what the real code wrote: the pins always; the
+                # other two where the model follows the text (for a construct outside its grammar - a pre-existing exact
+                # block, --external, text around a command - the python reader of this oracle has no reading either)
+                clauses = (1, 2, 3) if "outside" not in m else () if m["outside"] == "exact-block" else (1,)
+                try:
+                    fs = list(oracle_text(c, res["build"]["records"], x["text"], text.split("\n"), clauses))
+                except OutOfGrammar:
+                    ctx.bump("text-oracle:line-outside-the-python-reader")
+                    fs = list(oracle_text(c, res["build"]["records"], x["text"], text.split("\n"), (1, 2)))
+                for kind, expected, observed, what in fs:
+                    view = shrink_view(c, res)
+                    view["text_in"] = text
+                    view["expanded"] = x["text"]
+                    ctx.fail(kind, view, expected=expected, observed=observed, what="%s [further text: %s]" % (what, ",".join(kinds)))
     mout = ctx.model(exp_lines + bld_lines + rep_lines)
     for (i, key), ln in zip(exp_idx, mout[:len(exp_lines)]):
         c, res = cases[i], results[i][1]
@@ -862,12 +1142,14 @@ def shrink_view(c, res, key="expand"):
     return {"top": c["top"], "topv": c["topv"], "table": c["world"]["products"][c["top"]][c["topv"]],
             "built": res["build"]["records"], "expanded": (res.get(key) or {}).get("text"),
             "expanded_by_the_instance_that_did_the_setup": (res.get("expand_same") or {}).get("text"),
-            "plist": c["plist"], "force": c["force"], "evolve": c["evolve"], "world": c["world"]}
+            "plist": c["plist"], "force": c["force"], "evolve": c["evolve"], "world": c["world"],
+            "texts": c.get("texts", []), "reexpand": c.get("reexpand", False)}
 
 
 def case_of(inp):
     return {"world": inp["world"], "top": inp["top"], "topv": inp["topv"], "plist": inp.get("plist", {}),
-            "force": inp.get("force", False), "evolve": inp.get("evolve", [])}
+            "force": inp.get("force", False), "evolve": inp.get("evolve", []), "texts": inp.get("texts", []),
+            "reexpand": inp.get("reexpand", False)}
 
 
 def explore(ctx, cases):
@@ -915,6 +1197,20 @@ def m_just_line(f):
                     continue
                 if not d[1] and d[2] not in built:
                     return True
+    return False
+
+
+def m_setup_line_spelling(f):
+    """fallback signature should proposed_fixes/C17-setup-line-spelling not be taken: a setup line of the table is spelt in a
+    way the table reader accepts but the pinned expandTableFile does not recognise (the command name in another case, blanks
+    in front of the parenthesis, commas between the arguments)"""
+    if f["kind"] not in ("exact-reproduces-missing", "exact-reproduces-extra", "exact-view-leak", "inexact", "pins-foreign"):
+        return False
+    strict = re.compile(r'(setupRequired|setupOptional)\("?([^",]*)"?\)')
+    for ln in (f["input"].get("text_in") or "\n".join(f["input"]["table"])).split("\n"):
+        ln = re.sub(r"\s*#.*$", "", ln)
+        if SETUP_RE.search(ln) and not strict.search(ln):
+            return True
     return False
 
 
@@ -1017,6 +1313,7 @@ def setup_ctx(ctx):
     ctx.matchers["c17.just_line"] = m_just_line                 # fallbacks: only used if the repairs are not taken
     ctx.matchers["c17.optional_subtree"] = m_optional_subtree
     ctx.matchers["c17.closure_error"] = m_closure_error
+    ctx.matchers["c17.setup_line_spelling"] = m_setup_line_spelling     # fallback: only used if the repair is not taken
     ctx.rule = ("random one-stack worlds of 3-5 products x 1-3 versions (harness/setupsim.py: bare / versioned / "
                 "expression / -j, required and optional dependencies, diamonds with conflicting versions, products "
                 "without a current version); the top table is spread over several setup blocks with comments, blank "
@@ -1028,24 +1325,39 @@ def setup_ctx(ctx):
                 "one case in 8 from a second directed family (an optional link at depth 1, 2 or 3 below the top product "
                 "under which the setup of a product fails part-way, after it and its own dependencies were recorded, and is "
                 "rolled back); in about one world in three some products are declared under the fall-back flavor generic; "
-                "every table is expanded twice, by the Eups instance that did the setup and by a fresh one; "
+                "every table is expanded twice, by the Eups instance that did the setup and by a fresh one, and the TEXT "
+                "written is compared character for character with the text the model writes from the TEXT of the table; "
+                "one setup line in eight of the top table is respelt in a way the table reader accepts (blanks inside and before the "
+                "parentheses, quotes, -k, -f flavor, -t tag, command name in another case, commas); one case in 16 from a third "
+                "directed family (the setup lines of the top table in other cases / with blanks before the parenthesis / "
+                "with commas, newer current versions declared afterwards); 1-3 further texts per world are expanded only "
+                "(the top table with lines respelt in ways expandTableFile may or may not follow - histogram text:<kind>/verdict, "
+                "verdict = written | raise | outside:<reason of the model> - and, one world in four, the expanded table itself); "
                 "productList overrides (12%) and --force "
                 "(10%); the database then gains newer versions and current moves; a case is non-trivial when the build "
                 "succeeded and set up at least two products; distinct = distinct (tables, top product, productList)")
     ctx.trusted_base = common.COMMON_TRUSTED + [
-        "level A of the table scanner in python (harness/c17.py classify: the regular expressions of expandTableFile and "
-        "its subSetup argument loop, one setup command per line, product name first); the raw dependency lists fed to "
-        "the model are those the real getDependencies(setup=False) returns for the table's own lines (asked of the same "
-        "instance that expands the table, after it did so); the world fed to "
+        "level A is in the model (Model/ExpandText.v; the driver op xtext feeds the text of the table and the written text is "
+        "compared character for character); the python reader of setup lines (harness/c17.py classify) remains for the "
+        "level-B comparison and for the oracles; the raw dependency lists fed to "
+        "the model are those the real getDependencies(setup=False) returns for every product that is set up or named by the "
+        "productList (asked of the same instance that expands the table, after it did so); the world fed to "
         "Model/Setup.v is what the real table parser returns for every declared product; the environment fed to "
         "Model/Expand.v is the one the real setup left (also compared with the final environment of Model/Setup.v run on "
         "the decisions the real resolver took)",
-        "modelled, not verified: python re/str.split/strip on the stated line grammar; the version resolver "
+        "modelled, not verified: python re/str.split/strip as Model/Rx.v and Model/ExpandText.v state them; "
+        "Eups.version_match inside subSetup is C10's model (Model/VersionCompare.v); the version resolver "
         "(findProductFromVRO) enters only through those dependency lists and, in the replay, through the comparison of "
         "the real decisions with the explicit versions"]
     ctx.assumptions = ["one stack; every product declared under the running flavor or (all its versions) under the fall-back flavor "
-                       "generic; declared products only (no setup -r / LOCAL: versions, no --external, no product "
-                       "named eups, no pre-existing exact block in the input table)",
+                       "generic; declared products only (no setup -r / LOCAL: versions)",
+                       "constructs outside the text model get an explicit verdict and are counted (text[...]/outside:<reason>, "
+                       "top-table-text/outside:<reason>): --external, a pre-existing if (type == exact) block, text around a setup "
+                       "command (semicolon, unsetupRequired, two commands), parentheses inside the arguments, no product name, "
+                       "the product name not first, a flag argument that is -j, characters outside ASCII / carriage returns, an "
+                       "expression C10's model of version_match does not model; lines naming eups are modelled but cannot stand in "
+                       "a table that is set up here (Eups.setup of such a line needs eups' own version, empty in this checkout): "
+                       "they occur in the further texts only",
                        "expandVersions and addExactBlock at their defaults (True)"]
 
 
@@ -1053,10 +1365,11 @@ def run(ctx):
     setup_ctx(ctx)
     ctx.check_theorems()
     cases = corpus_cases()
-    n = ctx.size(800, 6000)
+    n = ctx.size(640, 5000)
     for k in range(n):
         cases.append(gen_shared_case(ctx.rng) if k % 16 == 7 else
-                     gen_failed_optional_case(ctx.rng) if k % 8 == 3 else gen_case(ctx.rng))
+                     gen_failed_optional_case(ctx.rng) if k % 8 == 3 else
+                     gen_spelling_case(ctx.rng) if k % 16 == 5 else gen_case(ctx.rng))
     for c in cases[:2]:
         ctx.sample({"top": c["top"], "topv": c["topv"], "table": c["world"]["products"][c["top"]][c["topv"]]})
     step = 2000
